@@ -164,7 +164,7 @@ struct XCompare : Engine {
     std::string describe(const Case& c) override { if (c.kind == 2) return "NULL / invalid nodes"; size_t i = (size_t)c.iv[1], j = (size_t)c.iv[2]; if (i >= T.size() || (c.kind == 0 && j >= T.size())) return "pair"; return c.kind == 1 ? "self/variants of " + rv_text(T[i]) : rv_text(T[i]) + " vs " + rv_text(T[j]) + (c.iv[3] ? " cs" : " ci"); }
     void finish(std::map<std::string, std::string>& x) override {
         x["rule"] = jstr("all ordered pairs (a,b) of all trees with <= n nodes over 31 leaves (incl. numbers one and two epsilon apart, huge, tiny, denormal, infinite, NaN, raw) and keys {a,A,b} x {case-sensitive, case-insensitive}; b is built in one of three ownership variants "
-                         "(plain, constant keys, string references + reference nodes); non-trivial = pairs the model calls equal; pairs left open by the statement (both non-finite, exactly on the tolerance boundary, keys colliding after folding) are counted as unconstrained");
+                         "(plain, constant keys, string references + reference nodes); non-trivial = pairs the model calls equal; pairs left open by the statement (both non-finite, exactly on the tolerance boundary, keys colliding after folding) are counted as unconstrained; plus, compared inside groups of the same size: strings / member names of every length 0..300 and around 512 / 1024 with near-miss variants, containers of every member count 0..70 and around 128 / 256 / 1000 with permuted / changed / missing members");
     }
 };
 } // namespace
